@@ -224,6 +224,10 @@ def random_history(ctx, tup, idx, cov, large=False):
                 sp = one_space or rng.choice(spaces)
                 pairs.append((sp, rng.choice(pool)))
         sizes = [p[0].subspace_size(p[1]) for p in pairs]
+        if not large and rng.random() < 0.3 and sizes[0] <= 1024:
+            # boundary: the configured per-subspace maximum equals the subspace size exactly
+            h.max_ids = sizes[0]
+            h.mgr.max_ids_per_subspace = sizes[0]
         npool = max(2, min(12, int(1.5 * min(min(sizes), 8)) + 1))
         descrs = [f"d{i}" for i in range(npool)]
         n_ops = rng.randrange(10, ctx.pick(45, 120))
